@@ -10,7 +10,7 @@ CLAIMED = {
    note="Trusted: the ArchModel reference model and the reference image reader (harness code written from the statement); rustc/std; the seeded hash-state seam replaces RandomState. Sampled, not exhaustive."),
  "C04": dict(cat="exploration", ref="DESIGN.md §3.3", tech="deterministic simulation: seeded interleavings of positional and stream clients with integer-limit arguments, step-wise refinement against a reference model, boundary sweeps",
    text="Seeded simulation interleaving positional, stream-reader and stream-writer accesses of every width and bit pattern with addresses/lengths at the data boundary and at the integer limits; return value (value or out-of-bounds error), cursor movement and full archive state are compared with the reference model after every step, in overflow-checked and wrapping builds; each run also sweeps every accessor over size-8..=size+8 and usize::MAX-8..=usize::MAX.",
-   note="Trusted: ArchModel (bounds, endianness, locality rules) and harness oracles; empty ranges and the cursor after a failed access are outside the statement and not judged."),
+   note="Trusted: ArchModel (bounds, endianness, locality rules) and harness oracles; empty ranges are outside the statement and not judged; a rejected stream access must leave the cursor where it was (it advances only by successful accesses)."),
  "C02": dict(cat="exploration", ref="DESIGN.md §3.2", tech="deterministic simulation: seeded hash states x interleaved build histories x persist/reload, compared with a reference canonical writer",
    text="Several builder clients construct the same content through different seeded, interleaved call histories, clones through parse and round trips through the simulated disk, each under hash states drawn from the run seed (the hidden nondeterminism the property is about: HashMap iteration order). Equal content must give identical bytes; every image must equal the reference writer's canonical image; parse -> serialize must be the identity on it. Exploration is the right level: the quantifier ranges over call orders and per-instance hash seeds, which one deterministic test run cannot vary.",
    note="Trusted: the reference canonical writer/reader and ArchModel (harness code); the cfg seam (seeded hash state instead of RandomState). If the hooked build fails the check falls back to the plain build (hash order then varies with the OS seed; reported as hash_state_seam=unavailable)."),
@@ -18,11 +18,11 @@ CLAIMED = {
    text="Seeded histories of set / delete / has / get / set_title / idempotence probe / serialize / save-and-reload on one TextArchive, compared after every step with an insertion-ordered list model (order, values, escaping, dirty flag) and with the label order of the serialized image read by an independent reader. Exploration is the right level: the property quantifies over histories; deletion and re-insertion orders are what the three unit tests never reach.",
    note="Trusted: the list model and reference image reader (harness code). After a reload the model is re-synchronised (content preservation is C06, not claimed)."),
  "C12": dict(cat="exploration", ref="DESIGN.md §3.1", tech="deterministic simulation of a layered store on a real private tmpfs: seeded multi-handle histories, injected torn writes / failing opens / vanishing layers / corrupted files, step-wise refinement against a mirror model with whole-disk comparison",
-   text="Simulated disk shared by 1-3 handles and an environment actor; every call's result and the complete content of every layer directory are compared with the FsModel mirror after each step (top layer wins, writes only touch the top layer, read-after-write incl. compressed names validated by an independent LZ reader, existence queries, typed helpers = byte-level call composed with the codec the table prescribes). Half of the runs inject I/O faults at calls that create in-flight state (RLIMIT_FSIZE torn write, RLIMIT_NOFILE failing open) and storage faults at rest. Exploration is the right level: the property quantifies over histories, layer stacks, games and payloads; shadowing, conflicts and fault timing only line up in multi-step sequences.",
+   text="Simulated disk shared by 1-3 handles and an environment actor; every call's result and the complete content of every layer directory are compared with the FsModel mirror after each step (top layer wins, writes only touch the top layer, read-after-write incl. compressed names validated by an independent LZ reader, existence queries, typed helpers = byte-level call composed with the codec the table prescribes). Half of the runs inject I/O faults at calls that create in-flight state (RLIMIT_FSIZE torn write, RLIMIT_NOFILE failing open, EIO on a single layer through a cfg-guarded fault point) and storage faults at rest. Exploration is the right level: the property quantifies over histories, layer stacks, games and payloads; shadowing, conflicts and fault timing only line up in multi-step sequences.",
    note="Trusted: FsModel, the reference LZ reader, the specification table (harness code); the kernel's tmpfs and rlimits as the fault injector. Under faults only the unconditional clauses are asserted (see evidence assumptions)."),
  "C13": dict(cat="exploration", ref="DESIGN.md §3.1", tech="deterministic simulation of a layered store: seeded histories, listings compared with a directory-walk model after arbitrary prior writes and under failing directory reads",
    text="Listing-heavy seeded histories on the simulated disk: list / subdirectories results must equal the sorted duplicate-free union computed by the model from the mirrored layers, for root, nested, missing and file paths, a probed glob family, localized and not, after arbitrary prior writes, removals and vanished layers; every listed path must exist according to exists().",
-   note="Trusted: FsModel's union rule and glob-family matcher (probed against the glob crate). Under a failing-open fault a subset is accepted."),
+   note="Trusted: FsModel's union rule and glob-family matcher (probed against the glob crate). Under failing directory reads inside the glob walk a sorted subset is accepted; when one layer's listing fails outright (injected EIO) the call must return an error or the complete union."),
  "C14": dict(cat="exploration", ref="DESIGN.md §3.1", tech="deterministic simulation of a layered store with localized operations checked against a specification table on disk, plus direct enumeration of the 6x8 localizer table",
    text="All 40 game x language pairs are cycled over simulated worlds in which 70 % of operations are localized; the on-disk location addressed by every localized write/read/exists/list must be the table-localized one, and the localizer functions themselves are enumerated against the table (all 6 localizers x 8 languages, generated and degenerate paths).",
    note="Trusted: the marker table copied from the pinned code (now the specification). The table half is enumeration of a pure function, stated as such; the disk half is what needs the simulator."),
